@@ -5,7 +5,7 @@ export GOFLAGS=-mod=mod GOPROXY=off
 git diff -- . ':(exclude)DEMO' > /tmp/confirm_$(basename $d).patch
 demo=$(ls DEMO/demo.sh DEMO/run.sh 2>/dev/null | head -1)
 b=$(go build ./... >/dev/null 2>&1 && echo ok || echo FAIL)
-t=$(go test -count=1 ./... >/dev/null 2>&1 && echo ok || echo FAIL)
+t=$(go test -vet=off -count=1 ./... >/dev/null 2>&1 && echo ok || echo FAIL)
 bash "$demo" >/tmp/confirm_$(basename $d).mut.log 2>&1; m=$?
 git apply -R /tmp/confirm_$(basename $d).patch
 bash "$demo" >/tmp/confirm_$(basename $d).orig.log 2>&1; o=$?
